@@ -251,6 +251,9 @@ def odefun(ctx, F, x0, y0, tol=None, degree=None, method='taylor', verbose=False
     def get_series(x):
         if x < x0:
             raise ValueError
+        # a segment is published by appending its boundary; drop a segment
+        # whose boundary never got recorded (interrupted extension)
+        del series_data[len(series_boundaries)-1:]
         n = bisect(series_boundaries, x)
         if n < len(series_boundaries):
             return series_data[n-1]
@@ -261,8 +264,8 @@ def odefun(ctx, F, x0, y0, tol=None, degree=None, method='taylor', verbose=False
             y = mpolyval(ser, xb-xa)
             xa = xb
             ser, xb = ode_taylor(ctx, F, xb, y, tol_prec, degree)
-            series_boundaries.append(xb)
             series_data.append((ser, xa, xb))
+            series_boundaries.append(xb)
             if x <= xb:
                 return series_data[-1]
     # Evaluation function
